@@ -12,6 +12,7 @@ CONSTANTS
   ZTCode = {10000,20067,30115,40153,50186,300601,530821,10743847}
   ZDCode = {30309,120703,3003705}
   Delivery = "by_prior"
+  Passes = "user_table"
   QNum = {0,9,11,12,13,15,24,112}
   QShift = 12
   QDen = {1,4}
